@@ -18,7 +18,7 @@ use std::time::{Duration, Instant};
 // operations
 // ---------------------------------------------------------------------------
 
-const INPUTS: [&str; 11] = [
+const INPUTS: [&str; 12] = [
     "abc",
     "Abc",
     "\u{e9}\u{3000}\u{ff22}",
@@ -30,7 +30,17 @@ const INPUTS: [&str; 11] = [
     "\u{aa}",             // HasCompat: rejected by IdentifierClass, accepted by FreeformClass
     "a\u{ff22}\u{ff76}", // width-mapped characters from the middle of the mapping table
     "\u{e0}",             // the oldest entry of the warm-up history
+    "\u{b5}",             // a second HasCompat letter in the same 64-code-point block as U+00AA
 ];
+
+/// input number i: the fixed ones above, or (100 + k) = the k-th nickname of a call history
+fn input(i: usize) -> String {
+    if i >= 100 {
+        format!("  Guest   {:02}  \u{2163} ", i - 100)
+    } else {
+        INPUTS[i].to_string()
+    }
+}
 
 /// a call history executed by the driver thread of the child *before* the scheduled threads
 /// start: `n` distinct non-ASCII letters (fills per-code-point caches of that size)
@@ -67,7 +77,8 @@ fn showb(r: Result<bool, Error>) -> String {
 }
 
 fn run_static(c: Call) -> String {
-    let s = INPUTS[c.2];
+    let owned = input(c.2);
+    let s = owned.as_str();
     let r = catch_unwind(AssertUnwindSafe(|| match (c.0, c.1) {
         (P::Ucm, O::Prepare) => show(<UsernameCaseMapped as PrecisFastInvocation>::prepare(s)),
         (P::Ucm, O::Enforce) => show(<UsernameCaseMapped as PrecisFastInvocation>::enforce(s)),
@@ -95,7 +106,8 @@ fn run_static(c: Call) -> String {
 
 /// reference: fresh instance, no statics involved
 fn run_fresh(c: Call) -> String {
-    let s = INPUTS[c.2];
+    let owned = input(c.2);
+    let s = owned.as_str();
     match (c.0, c.1) {
         (P::Ucm, O::Prepare) => show(UsernameCaseMapped::new().prepare(s)),
         (P::Ucm, O::Enforce) => show(UsernameCaseMapped::new().enforce(s)),
@@ -303,10 +315,21 @@ struct Execution {
 }
 
 static WARM: std::sync::atomic::AtomicUsize = std::sync::atomic::AtomicUsize::new(0);
+static HIST: std::sync::atomic::AtomicUsize = std::sync::atomic::AtomicUsize::new(0);
 
 fn execute_here(threads: &[Vec<Call>], prefix: &[usize]) -> Execution {
     verif::reset_all();
     let w = WARM.load(std::sync::atomic::Ordering::SeqCst);
+    let h = HIST.load(std::sync::atomic::Ordering::SeqCst);
+    for k in 0..h {
+        // a single-threaded history of distinct calls through the static API of every profile
+        let s = input(100 + k);
+        let _ = <Nickname as PrecisFastInvocation>::enforce(s.as_str());
+        let _ = <OpaqueString as PrecisFastInvocation>::enforce(s.as_str());
+        let t = format!("guest{:02}", k);
+        let _ = <UsernameCaseMapped as PrecisFastInvocation>::enforce(t.as_str());
+        let _ = <UsernameCasePreserved as PrecisFastInvocation>::enforce(t.as_str());
+    }
     if w > 0 {
         // uncontrolled, single-threaded history before the scheduled part
         let s = warm_up(w);
@@ -587,7 +610,7 @@ impl<'a> Explorer<'a> {
         for (l, n) in &x.derefs {
             let i = x.inits.get(l).copied().unwrap_or(0);
             // after a warm-up history the singleton may already exist (0 initialisations here)
-            let warmed = WARM.load(std::sync::atomic::Ordering::SeqCst) > 0;
+            let warmed = WARM.load(std::sync::atomic::Ordering::SeqCst) > 0 || HIST.load(std::sync::atomic::Ordering::SeqCst) > 0;
             if *n > 0 && (i > 1 || (i == 0 && !warmed)) {
                 problems.push(format!("lazy {:#x} dereferenced {} times but initialiser ran {} times", l, n, i));
             }
@@ -681,8 +704,9 @@ impl<'a> Explorer<'a> {
             if b >= max_bound || !self.violations.is_empty() {
                 return (b, false);
             }
-            // 0, 1, 2, then straight to the scenario's own bound (usually: no bound)
-            b = if b < 2 { b + 1 } else { max_bound };
+            // 0, 1, 2, 3, then straight to the scenario's own bound (usually: none). When the last
+            // round cannot finish under the caps, bound 3 is what has been completed.
+            b = if b < 3 { b + 1 } else { max_bound };
         }
     }
 }
@@ -706,6 +730,14 @@ fn scenarios(thorough: bool) -> Vec<(String, Vec<Vec<Call>>, usize)> {
     v.push(("3x1-mixed".into(), vec![vec![(P::Ucm, O::Enforce, 6)], vec![(P::Ucp, O::Compare, 5)], vec![(P::Opq, O::Enforce, 2)]], b3));
     // every per-code-point answer raced against a conflicting one (compat / non-compat, mapped / unmapped)
     v.push(("2x2-classes".into(), vec![vec![(P::Ucp, O::Prepare, 7), (P::Ucp, O::Prepare, 8)], vec![(P::Ucp, O::Prepare, 8), (P::Ucp, O::Prepare, 9)]], unbounded));
+    // two HasCompat letters of the same 64-code-point block looked up in opposite orders, twice
+    // (a memo word shared by neighbouring code points; the second calls observe what the race left)
+    v.push(("2x2-block".into(), vec![vec![(P::Ucp, O::Prepare, 8), (P::Ucp, O::Prepare, 11)], vec![(P::Ucp, O::Prepare, 11), (P::Ucp, O::Prepare, 8)]], unbounded));
+    // non-initial state: a history of K distinct calls through the static API, then two threads
+    // repeat two of the oldest calls of that history
+    for k in if thorough { vec![8usize, 24, 40] } else { vec![24usize] } {
+        v.push((format!("hist{}-2x1", k), vec![vec![(P::Nick, O::Enforce, 100)], vec![(P::Nick, O::Enforce, 101)]], unbounded));
+    }
     // non-initial state: the child first runs a call history over N distinct letters, then two threads
     // look up the oldest letter of that history and a letter of a different class
     for n in if thorough { vec![8usize, 16, 32, 64] } else { vec![32usize] } {
@@ -733,6 +765,8 @@ fn main() {
             Some((name, threads, bound)) => {
                 let warm = name.strip_prefix("warm").and_then(|r| r.split('-').next()).and_then(|n| n.parse::<usize>().ok()).unwrap_or(0);
                 WARM.store(warm, std::sync::atomic::Ordering::SeqCst);
+                let hist = name.strip_prefix("hist").and_then(|r| r.split('-').next()).and_then(|n| n.parse::<usize>().ok()).unwrap_or(0);
+                HIST.store(hist, std::sync::atomic::Ordering::SeqCst);
                 let expected: Vec<Vec<String>> = expected_results(&threads);
                 let mut e = Explorer { threads: &threads, expected, bound, executions: 0, transitions: 0, max_points: 0, outcomes: BTreeMap::new(), violations: vec![], cap: 1, capped: false, name, pruned: false, machinery: vec![], last_round: 0, t0: Instant::now(), wall_cap: Duration::from_secs(60) };
                 let a = execute(&threads, &ch);
@@ -754,6 +788,8 @@ fn main() {
     for (name, threads, bound) in scenarios(thorough) {
         let warm = name.strip_prefix("warm").and_then(|r| r.split('-').next()).and_then(|n| n.parse::<usize>().ok()).unwrap_or(0);
         WARM.store(warm, std::sync::atomic::Ordering::SeqCst);
+        let hist = name.strip_prefix("hist").and_then(|r| r.split('-').next()).and_then(|n| n.parse::<usize>().ok()).unwrap_or(0);
+        HIST.store(hist, std::sync::atomic::Ordering::SeqCst);
         let expected: Vec<Vec<String>> = expected_results(&threads);
         let t0 = Instant::now();
         let mut e = Explorer { threads: &threads, expected, bound, executions: 0, transitions: 0, max_points: 0, outcomes: BTreeMap::new(), violations: vec![], cap, capped: false, name: name.clone(), pruned: false, machinery: vec![], last_round: 0, t0: Instant::now(), wall_cap: Duration::from_secs(if thorough { 240 } else { 6 }) };
@@ -769,7 +805,7 @@ fn main() {
         total_trans += e.transitions;
         report.push(json!({
             "scenario": name,
-            "threads": threads.iter().map(|t| t.iter().map(|c| format!("{:?}.{:?}({:?})", c.0, c.1, INPUTS[c.2])).collect::<Vec<_>>()).collect::<Vec<_>>(),
+            "threads": threads.iter().map(|t| t.iter().map(|c| format!("{:?}.{:?}({:?})", c.0, c.1, input(c.2))).collect::<Vec<_>>()).collect::<Vec<_>>(),
             "preemption_bound": if bound > 1000 { json!("unbounded") } else { json!(bound) },
             "schedules": e.executions,
             "schedules_in_last_round": e.last_round,
